@@ -41,6 +41,7 @@ def check_rect(case):
     R1, R2, r1, r2 = gr.region_pair(case, "rect", lambda a, b: confidence_region_is_dominated(order, a, b, _slack_arr(s)))
     if case.get("first"):
         labels.append("objects-updated-after-a-comparison")
+        labels.append("refined-by:" + case["first"].get("mode", "update"))
     if case.get("same_object"):  # a region compared with itself, passed as one object
         R2 = R1
         labels.append("same-object-twice")
@@ -90,6 +91,7 @@ def check_ell(case):
     E1, E2, e1, e2 = gr.region_pair(case, "ell", lambda a, b: confidence_region_is_dominated(order, a, b, _slack_arr(s)))
     if case.get("first"):
         labels.append("objects-updated-after-a-comparison")
+        labels.append("refined-by:" + case["first"].get("mode", "update"))
     if case.get("same_object"):
         E2 = E1
         labels.append("same-object-twice")
@@ -253,7 +255,7 @@ COMPONENTS = [
     Component("ell_against_itself", check_ell, strategy=lambda: st_self("ell"), quick=150, thorough=4000,
               rule="as rect_against_itself for ellipsoids"),
     Component("rect_updated_objects", check_rect, strategy=lambda: st_updated("rect"), quick=400, thorough=10000,
-              rule="region objects built for another pair, compared once, then moved to the case's pair through update()"),
+              rule="region objects built for another pair (or, with intersect_iteratively=True, around the case's pair), compared once, then moved to the case's pair through update() / intersect()"),
     Component("ell_updated_objects", check_ell, strategy=lambda: st_updated("ell"), quick=300, thorough=8000,
               rule="as rect_updated_objects for ellipsoids; half of them small correlated (covariances differing by < 1e-8)"),
 ]
